@@ -45,7 +45,16 @@ Definition deg_ops : operations deg :=
         end;
      sign := fun _ => Xund |}.
 
-Definition deg_eval (P : list term) (d0 : list deg) : list deg := eval_generic DNone deg_ops P d0.
+(** one step of the analysis: the generic step, except that [x - x] (the "defined-ness carrying zero" the derivative
+    transformation of [AD.v] emits) is a zero of any degree as soon as [x] has a degree *)
+Definition deg_step (ds : list deg) (t : term) : list deg :=
+  match t with
+  | Binary Sub u v =>
+      if Nat.eqb u v then (match nth u ds DNone with DNone => DNone | _ => DAny end) :: ds
+      else eval_generic_body DNone deg_ops ds t
+  | _ => eval_generic_body DNone deg_ops ds t
+  end.
+Definition deg_eval (P : list term) (d0 : list deg) : list deg := fold_left deg_step P d0.
 
 Section Hom.
 Variable lam : R.
@@ -198,16 +207,37 @@ Proof.
 Qed.
 
 (** soundness for arbitrary related input lists *)
+Lemma Rh_sub_same d x x' : d <> DNone -> Rh d x x' -> Rh DAny (Xsub x x) (Xsub x' x').
+Proof.
+  destruct d as [| |k]; [congruence| |]; intros _.
+  - intros [-> Hx]. split; [reflexivity|]. destruct Hx as [-> | ->]; [now left|right]. cbn. f_equal. ring.
+  - destruct x as [|r]; cbn; intros ->; cbn; [now split; [|left]|]. split; [f_equal; ring|right; f_equal; ring].
+Qed.
+
+Lemma deg_step_rel ds vs vs' t : Forall3 Rh ds vs vs' ->
+  Forall3 Rh (deg_step ds t) (eval_generic_body Xnan ext_operations vs t) (eval_generic_body Xnan ext_operations vs' t).
+Proof.
+  intros H.
+  assert (Hn : forall n, Rh (nth n ds DNone) (nth n vs Xnan) (nth n vs' Xnan)) by (apply Forall3_nth; [exact H|exact I]).
+  assert (G : Forall3 Rh (eval_generic_body DNone deg_ops ds t) (eval_generic_body Xnan ext_operations vs t) (eval_generic_body Xnan ext_operations vs' t)).
+  { destruct t as [u|o u|o u v]; cbn [eval_generic_body]; constructor; try exact H.
+    - apply Hn. - apply Rh_unary, Hn. - apply Rh_binary; apply Hn. }
+  destruct t as [u|o u|o u v]; try exact G. destruct o; try exact G.
+  unfold deg_step. destruct (Nat.eqb_spec u v) as [->|_]; [|exact G].
+  cbn [eval_generic_body]. constructor; [|exact H].
+  cbn [binary ext_operations]. specialize (Hn v).
+  destruct (nth v ds DNone) eqn:E; [exact I| |]; (eapply Rh_sub_same; [|exact Hn]; congruence).
+Qed.
+
+(** soundness for arbitrary related input lists *)
 Theorem deg_sound_gen P d0 env env' :
   Forall3 Rh d0 env env' ->
   forall k, Rh (nth k (deg_eval P d0) DNone) (nth k (eval_ext P env) Xnan) (nth k (eval_ext P env') Xnan).
 Proof.
-  intros H k. unfold deg_eval, eval_ext.
+  intros H k. unfold deg_eval, eval_ext, eval_generic.
   apply Forall3_nth; [|exact I].
-  apply eval_generic_rel3; auto.
-  - exact I.
-  - intros; now apply Rh_unary.
-  - intros; now apply Rh_binary.
+  revert d0 env env' H. induction P as [|t P IH]; intros d0 env env' H; cbn [fold_left]; [exact H|].
+  apply IH. now apply deg_step_rel.
 Qed.
 
 (** scaling of a real environment according to a degree assignment *)
@@ -467,7 +497,7 @@ Fixpoint first_none_aux (P : list term) (vals : list deg) (pos : nat) : option (
   match P with
   | [] => None
   | t :: P' =>
-      let vals' := eval_generic_body DNone deg_ops vals t in
+      let vals' := deg_step vals t in
       if has_deg (hd DNone vals') then first_none_aux P' vals' (S pos)
       else
         let ok := match t with
